@@ -10,6 +10,8 @@ use std::sync::{Arc, Mutex};
 
 pub struct AuthGroup;
 
+pub const PASSWORDS: &[&str] = &["pw", "hunter2\n", "hunter2 ", " hunter2", "hunter2\r\n", "pass word\t", "", " ", "\n", "P\u{e4}ss w\u{f6}rd", "MiXeD", "x\u{a0}", "0123456789abcdef0123456789abcdef0123456789abcdef0123456789abcdef0123456789abcdef", "tab\tinside", "nul\u{0}byte"];
+
 fn sha(p: &str) -> Vec<u8> { let mut h = Sha256::new(); h.update(p.as_bytes()); h.finalize().to_vec() }
 
 fn cut(rng: &mut Rng, w: &[u8]) -> Vec<Vec<u8>> {
@@ -95,6 +97,16 @@ impl Group for AuthGroup {
         for k in [0xffu8, 0x01, 0x80, 0x55] { let h: Vec<u8> = exp.iter().map(|b| b ^ k).collect(); v.push(Case { lines: vec![line("conn", &exp, false, &[mk(&h)])] }); }
         // a correct prefix of every length followed by zeros / by the wrong tail
         for k in 0..32 { let mut h = exp.clone(); for b in h[k..].iter_mut() { *b = 0; } if h != exp { v.push(Case { lines: vec![line("v", &exp, false, &[mk(&h)])] }); } }
+        // configured passwords of every shape (surrounding whitespace, line ends, case, empty, non-ASCII, long) against
+        // the digest of the password itself and of its near relatives
+        for pw in PASSWORDS {
+            let mut rel: Vec<String> = vec![pw.to_string(), pw.trim().to_string(), pw.trim_end().to_string(), pw.trim_start().to_string(), pw.to_lowercase(), pw.to_uppercase(), format!("{pw}\n"), format!("{pw} "), format!(" {pw}"), pw.replace(' ', ""), pw.chars().take(pw.chars().count().saturating_sub(1)).collect()];
+            rel.dedup();
+            for r in rel {
+                let mut w = sha(&r); w.extend_from_slice(&[0, 2, 9, 9]); w.extend_from_slice(&tail);
+                v.push(Case { lines: vec![format!("auth pw {} 0 {}", hex_compact(pw.as_bytes()), hex_compact(&w))] });
+            }
+        }
         // hashes of related passwords
         for p in ["correct horse ", "Correct horse", "correct hors", "correct horse\n", "correct horsf", "", "correct  horse"] {
             v.push(Case { lines: vec![line("conn", &exp, false, &[mk(&sha(p))])] });
@@ -127,6 +139,16 @@ impl Group for AuthGroup {
         let chunks = cut(rng, &w);
         let kind = if rng.chance(1, 2) { "conn" } else { "v" };
         let eof = kind == "v" && rng.chance(1, 2);
+        if rng.chance(1, 8) {
+            // the same through the configuration step: password in, digest derived by the code
+            let pw = *rng.pick(PASSWORDS);
+            let rel = match rng.below(6) { 0 => pw.trim().to_string(), 1 => pw.trim_end().to_string(), 2 => pw.to_lowercase(), 3 => format!("{pw}\n"), _ => pw.to_string() };
+            let mut w = sha(&rel);
+            w.extend_from_slice(&(p as u16).to_be_bytes());
+            w.extend(vec![fill; p]);
+            let chunks = cut(rng, &w);
+            return Case { lines: vec![format!("auth pw {} {} {}", hex_compact(pw.as_bytes()), eof as u8, chunks.iter().map(|c| hex_compact(c)).collect::<Vec<_>>().join(" "))] };
+        }
         Case { lines: vec![line(kind, &exp, eof, &chunks)] }
     }
 
@@ -141,9 +163,17 @@ impl Group for AuthGroup {
                     _ => { out.obs.push("bad-op".into()); continue; }
                 };
                 let (Some(exp), Some(chunks)) = (exp, chunks) else { out.obs.push("bad-op".into()); continue; };
-                if exp.len() != 32 { out.obs.push("bad-op".into()); continue; }
-                let mut e32 = [0u8; 32];
-                e32.copy_from_slice(&exp);
+                // kind `pw`: the second field is the configured password; the digest the server compares with is
+                // derived by the code's own configuration step, the oracle's by an independent SHA-256
+                let (exp, e32) = if kind == "pw" {
+                    let Ok(pw) = String::from_utf8(exp.clone()) else { out.obs.push("bad-op".into()); continue; };
+                    (sha(&pw), anytls_rs::util::hash_password(&pw))
+                } else {
+                    if exp.len() != 32 { out.obs.push("bad-op".into()); continue; }
+                    let mut e32 = [0u8; 32];
+                    e32.copy_from_slice(&exp);
+                    (exp, e32)
+                };
                 let all: Vec<u8> = chunks.concat();
                 let feed = Arc::new(Mutex::new(FeedState::default()));
                 for c in &chunks { if !c.is_empty() { feed.lock().unwrap().chunks.push_back(c.clone()); } }
@@ -169,7 +199,7 @@ impl Group for AuthGroup {
                 }
                 out.tags.push(format!("{kind}/{verdict}"));
                 out.nontrivial = true;
-                if kind == "v" {
+                if kind == "v" || kind == "pw" {
                     out.obs.push(format!("{verdict} consumed={consumed}"));
                     continue;
                 }
